@@ -306,6 +306,71 @@ fn concurrent_backend<B: Backend>(opts: &Opts, rep: &mut Report) {
 
 /// Concurrent *first use* of a freshly constructed key object: any lazily initialised state inside
 /// a key (caches, FFI contexts) is initialised while several threads are inside it.
+/// Part A3: the same key objects cloned and dropped by 8 threads at once, tens of thousands of times
+/// (a reference count that is not atomic frees the key while other threads still use it), then used.
+fn clone_hammer_backend<B: Backend>(opts: &Opts, rep: &mut Report) {
+    if opts.shard != 0 {
+        return;
+    }
+    let sh = Arc::new(build_shared::<B>(opts.seed ^ 0xc10e));
+    let n = if B::VER == 1 { opts.size(2000, 20_000) } else { opts.size(20_000, 200_000) };
+    let threads = 8;
+    let barrier = Arc::new(Barrier::new(threads));
+    let bad = Arc::new(Mutex::new(Vec::<String>::new()));
+    std::thread::scope(|sc| {
+        for t in 0..threads {
+            let (sh, barrier, bad) = (sh.clone(), barrier.clone(), bad.clone());
+            sc.spawn(move || {
+                barrier.wait();
+                let r = guard(|| {
+                    let mut keep = vec![];
+                    // workload size only (never a verdict): at most n cycles or about four seconds per backend
+                    let t0 = std::time::Instant::now();
+                    for i in 0..n {
+                        if i % 256 == 0 && t0.elapsed().as_secs() >= 4 {
+                            break;
+                        }
+                        let a = sh.secret.clone();
+                        let b = sh.public.clone();
+                        let c = sh.local.clone();
+                        let d = sh.pke_secret.clone();
+                        if i % 1024 == t {
+                            heartbeat(B::NAME);
+                            // use the clones now and then, and keep a few alive across iterations
+                            if key_text(&a) != sh.secret_text || key_text(&b) != sh.public_text || key_text(&c) != sh.local_text {
+                                return Err(format!("clone {i} of thread {t} exposes other key material"));
+                            }
+                            keep.push((a.clone(), b.clone()));
+                            if keep.len() > 4 {
+                                keep.remove(0);
+                            }
+                        }
+                        drop((a, b, c, d));
+                    }
+                    Ok(())
+                });
+                match r {
+                    Ok(Ok(())) => {}
+                    Ok(Err(e)) => bad.lock().unwrap().push(e),
+                    Err(pn) => bad.lock().unwrap().push(format!("panic: {pn}")),
+                }
+            });
+        }
+    });
+    // the shared objects still work
+    let kp = KeyPair::<B>::Public(sh.secret.clone(), sh.public.clone());
+    let after = guard(|| kp.seal(b"after the hammer", b"", b"").and_then(|t| kp.open(&t, b"")).map(|(m, _)| m == b"after the hammer"));
+    if !matches!(after, Ok(Ok(true))) {
+        bad.lock().unwrap().push(format!("shared keys unusable afterwards: {after:?}", after = after.map(|r| r.map_err(|e| err_kind(&e)))));
+    }
+    for b in bad.lock().unwrap().iter() {
+        rep.violation(&format!("C17|{}|concurrent-clone-drop", B::NAME), json!({"backend": B::NAME, "threads": threads, "clone_drop_cycles_per_thread": n, "what": b}));
+    }
+    rep.case(&format!("{}.clone-hammer", B::NAME), fnv_parts(&[B::NAME.as_bytes(), b"hammer"]), true);
+    rep.count_n(&format!("{}.clone-hammer.cycles", B::NAME), (n * threads) as u64);
+    rep.sample_class("clone-hammer", 6, || json!({"backend": B::NAME, "threads": threads, "clone_drop_cycles_per_thread": n, "outcome": "no crash, clones expose the same key, shared keys usable afterwards"}));
+}
+
 fn first_use_backend<B: Backend>(opts: &Opts, rep: &mut Report) {
     use paseto_core::version::{Public, Secret};
     if opts.shard != 0 {
@@ -559,13 +624,14 @@ pub fn run(opts: &Opts) {
     if opts.wants_part("concurrent") {
         for_backends!(opts, concurrent_backend, opts, &mut rep);
         for_backends!(opts, first_use_backend, opts, &mut rep);
+        for_backends!(opts, clone_hammer_backend, opts, &mut rep);
     }
     if opts.wants_part("histories") {
         for_backends!(opts, histories_backend, opts, &mut rep);
     }
     rep.set(
         "rule",
-        json!("Part A: per backend one shared key set (local, secret, public, PKE pair), T in {2,4,8,16} threads released by a barrier, each running a seeded mix of 16 operation kinds (sign, verify valid/forged, encrypt, decrypt valid/forged, fixed-nonce seal, PIE wrap/unwrap, PKE seal/unseal, clone+drop, id, expose, public_key, verify a token produced by another thread); every operation is logged with start/end ticks of one global atomic; after join each result is checked against the sequentially precomputed oracle and the number of operation pairs of different threads whose intervals overlap is reported per run (a run without overlap is inconclusive). Part A2: hundreds of rounds in which 8 threads make the *first* use (sign, verify, public_key/id, Display) of a freshly constructed key object at the same moment, checked against sequentially used reference objects. Part C: random histories of 5..50 failing and succeeding calls on one key; after every step probe(K) (exposed bytes, ids, fixed-nonce seal output, decrypt/verify of fixed tokens, sign+verify, unwrap) must equal probe(fresh copy parsed from K's serialisation). distinct = distinct (backend, thread count, thread, seq) events / distinct histories"),
+        json!("Part A: per backend one shared key set (local, secret, public, PKE pair), T in {2,4,8,16} threads released by a barrier, each running a seeded mix of 16 operation kinds (sign, verify valid/forged, encrypt, decrypt valid/forged, fixed-nonce seal, PIE wrap/unwrap, PKE seal/unseal, clone+drop, id, expose, public_key, verify a token produced by another thread); every operation is logged with start/end ticks of one global atomic; after join each result is checked against the sequentially precomputed oracle and the number of operation pairs of different threads whose intervals overlap is reported per run (a run without overlap is inconclusive). Part A2: hundreds of rounds in which 8 threads make the *first* use (sign, verify, public_key/id, Display) of a freshly constructed key object at the same moment, checked against sequentially used reference objects. Part A3: 8 threads clone and drop the shared key objects 20 000 (thorough 200 000) times each at the same moment, then the keys are used (a crash of the process is reported with the signature C17|process|abort-or-signal). Part C: random histories of 5..50 failing and succeeding calls on one key; after every step probe(K) (exposed bytes, ids, fixed-nonce seal output, decrypt/verify of fixed tokens, sign+verify, unwrap) must equal probe(fresh copy parsed from K's serialisation). distinct = distinct (backend, thread count, thread, seq) events / distinct histories"),
     );
     rep.finish(opts);
 }
